@@ -9,7 +9,8 @@
 (*   old     expired for longer than DeleteExpiredAfter                      *)
 (* CleanupExact of Store.tla, stated per class: the cycle removes exactly the *)
 (* old entries - all of them, however many sit in one shard - and nothing     *)
-(* else; Len agrees.                                                          *)
+(* else; Len agrees.  While the cycle runs another goroutine stores fresh     *)
+(* keys of its own (written_during): none of them may be lost (lost_writes).  *)
 (***************************************************************************)
 EXTENDS Integers, Sequences, TLC, Json
 
@@ -24,6 +25,7 @@ RunOK(e) ==
   /\ e.left_recent = e.recent
   /\ e.left_old = 0
   /\ e.len_after = e.never + e.fresh + e.recent
+  /\ e.lost_writes = 0          \* a Write that returned while the cycle was running is readable afterwards
 
 Init == l = 1
 Next == l <= Len(Trace) /\ (IF "ev" \in DOMAIN Trace[l] THEN TRUE ELSE RunOK(Trace[l])) /\ l' = l + 1   \* "ev" lines separate runs
